@@ -169,6 +169,7 @@ fn filter_of(name: &str) -> IncludeRollup {
     match name {
         "all" => IncludeRollup::parse("").unwrap(),
         "only-a" => IncludeRollup::parse(&STANDARD.encode(ra().as_bytes())).unwrap(),
+        "only-b" => IncludeRollup::parse(&STANDARD.encode(rb().as_bytes())).unwrap(),
         "only-absent" => IncludeRollup::parse(&STANDARD.encode([0xcc; 32])).unwrap(),
         other => panic!("unknown filter {other}"),
     }
@@ -428,6 +429,7 @@ fn verif_c12() {
     if let Some(case) = report::load_replay("C12", "batching") {
         model.filter = match case.get("filter").and_then(J::as_str) {
             Some("only-a") => "only-a",
+            Some("only-b") => "only-b",
             Some("only-absent") => "only-absent",
             _ => "all",
         };
@@ -458,14 +460,14 @@ fn verif_c12() {
     }
     rep.rule(&format!(
         "BFS over the real NextSubmission behind BlobSubmitter's pending-block logic: every sequence of <= {depth} events from \
-         {{deliver(next height, size class in {:?}), take}} for rollup filters {{all, only rollup a, only an absent rollup}}; \
+         {{deliver(next height, size class in {:?}), take}} for rollup filters {{all, only rollup a (sorts first), only rollup b (sorts after a filtered one), only an absent rollup}}; \
          each state is the history replayed on a fresh submitter; blocks carry incompressible payloads so compressed size tracks \
          payload size; every taken submission is decoded like the conductor does (brotli, protobuf lists, checked types, \
          Merkle audit) and compared with the blocks handed in",
         CLASSES[..n_classes].iter().map(|c| c.0).collect::<Vec<_>>()
     ));
     let mut outcomes = 0;
-    for filter in ["all", "only-a", "only-absent"] {
+    for filter in ["all", "only-a", "only-b", "only-absent"] {
         model.filter = filter;
         let out = explore::explore(
             &model,
